@@ -4,10 +4,12 @@ Open Scope N_scope.
 
 (* per content: the data of a full answer on a fresh server, the UTF-16 length of every line,
    whether the text is empty, and content flags used by the known-finding classifiers *)
-Record cinfo := mkInfo { ci_data : list N; ci_lens : list N; ci_empty : bool; ci_flags : N }.
+(* ci_cover: per token of the full answer (type, the bytes it covers, the bytes of the line behind it) *)
+Record cinfo := mkInfo { ci_data : list N; ci_lens : list N; ci_empty : bool; ci_flags : N;
+                         ci_cover : list (N * list N * list N) }.
 Record case := mkCase { table : list cinfo; hist : list (sreq * sresp) }.
 
-Definition info (c : case) (k : N) : cinfo := nth (N.to_nat k) (table c) (mkInfo [] [] true 0).
+Definition info (c : case) (k : N) : cinfo := nth (N.to_nat k) (table c) (mkInfo [] [] true 0 []).
 Definition toks_of (c : case) (k : N) : list tok := decode (ci_data (info c k)).
 Definition empty_of (c : case) (k : N) : bool := ci_empty (info c k).
 
@@ -83,11 +85,32 @@ Fixpoint geom_from (lens : list N) (pl pc pe : N) (l : list tok) : bool :=
   end.
 Definition geom_ok (i : cinfo) : bool := geom_from (ci_lens i) 0 0 0 (decode (ci_data i)).
 
+(* (d) lexemes: a code token covers the code with its parentheses, a commodity token a quoted
+   commodity with its quotes, an operator token exactly the operator *)
+Definition last_byte (l : list N) : N := match rev l with c :: _ => c | [] => 0 end.
+Definition lexeme_ok (e : N * list N * list N) : bool :=
+  let '(ty, cover, after) := e in
+  if ty =? 7 then                                                   (* code *)
+    match cover with
+    | 40 :: _ => (last_byte cover =? 41) || negb (existsb (fun c => c =? 41) after)
+    | _ => false
+    end
+  else if ty =? 1 then                                              (* commodity *)
+    match cover with
+    | 34 :: r => (match r with [] => false | _ => last_byte cover =? 34 end) || negb (existsb (fun c => c =? 34) after)
+    | _ => true
+    end
+  else if ty =? 11 then                                             (* operator *)
+    list_eqb N.eqb cover [64] || list_eqb N.eqb cover [64; 64] || list_eqb N.eqb cover [61] ||
+    list_eqb N.eqb cover [61; 61] || list_eqb N.eqb cover [124]
+  else true.
+Definition lexemes_ok (i : cinfo) : bool := forallb lexeme_ok (ci_cover i).
+
 Definition used_contents (c : case) : list N :=
   flat_map (fun ro => match fst ro with SOpen _ k | SEdit _ k => [k] | _ => [] end) (hist c).
 
 Definition oracle_ok (c : case) : bool :=
-  oracle_from c [] [] (hist c) && forallb (fun k => geom_ok (info c k)) (used_contents c).
+  oracle_from c [] [] (hist c) && forallb (fun k => geom_ok (info c k) && lexemes_ok (info c k)) (used_contents c).
 
 (* no recorded finding is left for C17 (token columns in runes and tag columns / lengths in bytes on
    lines with non-ASCII text were repaired in /repo 6efc7b5: columns count UTF-16 code units) *)
